@@ -62,4 +62,46 @@ DataAbortSD(x, mva, iswrite, dtype, level, domain) ==
      [x EXCEPT !.s.sys.DFSR = dfsr, !.s.sys.DFAR = mva,
                !.dcD = IF domv THEN @ ELSE WOr(@, <<0, 240>>),
                !.ab = [t |-> "dabort", alignment |-> dtype = "ALIGNMENT", secondstage |-> FALSE]]
+-----------------------------------------------------------------------------
+(* Memory attributes of an address descriptor (B2.4.? MemoryAttributes): type, inner/outer cacheability attrs  *)
+(* (00 NC, 01 WBWA, 10 WT, 11 WB) and allocation hints, shareable / outershareable.  `dc` names the fields the  *)
+(* architecture leaves UNKNOWN or IMPLEMENTATION DEFINED (or that I will not vouch for from memory: the         *)
+(* shareability of Device memory, which changed between issues of the ARM ARM); they are not compared.          *)
+AttrFields == {"ty", "ia", "ih", "oa", "oh", "sh", "osh"}
+MkAttr(ty, ia, ih, oa, oh, sh, osh, dc) ==
+  [a |-> [ty |-> ty, ia |-> ia, ih |-> ih, oa |-> oa, oh |-> oh, sh |-> sh, osh |-> osh], dc |-> dc]
+AttrUnknown  == MkAttr("NORMAL", 0, 0, 0, 0, 0, 0, AttrFields)
+AttrSO       == MkAttr("SO", 0, 0, 0, 0, 1, 1, {"ia", "ih", "oa", "oh"})
+AttrDevice   == MkAttr("DEV", 0, 0, 0, 0, 1, 1, {"ia", "ih", "oa", "oh", "sh", "osh"})
+B2N(b) == IF b THEN 1 ELSE 0
+
+\* ConvertAttrsHints(RGN): 00 NC; x1 write-back (hints 1:NOT(RGN<1>)); 10 write-through (hints 10)
+ConvAttrs(rgn) == IF rgn = 0 THEN 0 ELSE IF rgn % 2 = 1 THEN 3 ELSE 2
+ConvHints(rgn) == IF rgn = 0 THEN 0 ELSE IF rgn % 2 = 1 THEN 2 + (1 - rgn \div 2) ELSE 2
+
+\* DefaultTEXDecode(texcb, S) (B3.? / B5.?): the TEX/C/B encodings without TEX remap
+DefaultTEXDecode(texcb, sbit) ==
+  LET N(a, h) == MkAttr("NORMAL", a, h, a, h, sbit, sbit, {}) IN
+  CASE texcb = 0 -> AttrSO
+    [] texcb = 1 -> AttrDevice
+    [] texcb = 2 -> N(2, 2)
+    [] texcb = 3 -> N(3, 2)
+    [] texcb = 4 -> N(0, 0)
+    [] texcb = 7 -> N(3, 3)
+    [] texcb = 8 -> AttrDevice
+    [] texcb >= 16 -> MkAttr("NORMAL", ConvAttrs(texcb % 4), ConvHints(texcb % 4),
+                             ConvAttrs((texcb \div 4) % 4), ConvHints((texcb \div 4) % 4), sbit, sbit, {})
+    [] OTHER -> AttrUnknown            \* 00110 IMPLEMENTATION DEFINED, the rest reserved (UNPREDICTABLE)
+TEXCBReserved(texcb) == texcb \in {5, 9, 10, 11, 12, 13, 14, 15}
+
+\* DefaultMemoryAttributes(va) (B5.? PMSA default memory map / MPU off), selected by va<31:30> and va<29>;
+\* allocation hints are not assigned by the pseudocode
+DefaultMemoryAttributes(s, va) ==
+  LET top == Slice(va, 31, 30)  b29 == Bit(va, 29)
+      c   == Bit(s.sys.SCTLR, 2)
+      N(a, sh) == MkAttr("NORMAL", a, 0, a, 0, sh, sh, {"ih", "oh"})
+  IN CASE top = 0 -> IF c = 0 THEN N(0, 1) ELSE N(1, 0)
+       [] top = 1 -> IF c = 0 \/ b29 = 1 THEN N(0, 1) ELSE N(2, 0)
+       [] top = 2 -> AttrDevice
+       [] top = 3 -> AttrSO
 =============================================================================
